@@ -187,6 +187,7 @@ def run(ctx):
     explicit utf8 codec.  The two agree for every locale exactly when (a) the writer names the same codec as the reader, or
     (b) the writer emits ASCII only (json.dump's default ensure_ascii=True), which every ASCII-compatible locale codec and
     utf8 decode identically."""
+    ctx.rule('R01.9', 'fields read from a diff entry exist for every op that the surrounding op tests still allow (field table from the op_* constructors)', floor=8)
     ctx.rule('R01.8', 'name binding: every global name a function refers to is bound at module level or builtin, and every local is assigned on every path before it is read', floor=6)
     ctx.rule('R01.7', 'every exactly resolved call binds against its callee\'s signature (no missing/unknown/surplus argument on any arm)', floor=5)
     ctx.rule('R01.6', 'the notebook diff is a function of the two notebooks\' CONTENT: nothing reachable from diff_notebooks writes module-level state '
@@ -246,3 +247,5 @@ def run(ctx):
     call_compat(ctx, 'R01.7', ['nbdime.diffing.', 'nbdime.patching', 'nbdime.diff_utils', 'nbdime.diff_format', 'nbdime.nbdiffapp', 'nbdime.nbpatchapp'], 'diffing/patching a valid notebook aborts instead of round-tripping')
     from ..names import name_binding
     name_binding(ctx, 'R01.8', ['nbdime.diffing.', 'nbdime.patching', 'nbdime.diff_utils', 'nbdime.diff_format', 'nbdime.nbdiffapp', 'nbdime.nbpatchapp'])
+    from ..opfields import check_op_fields
+    check_op_fields(ctx, 'R01.9', ['nbdime.diffing.', 'nbdime.patching', 'nbdime.diff_utils', 'nbdime.diff_format'])
